@@ -31,26 +31,32 @@ const (
 
 const c10OffUser = "user9"
 
+// the user of the senders that are clients (states 1, 2, 5, 8); internal clients have no user id
+const c10SelfUser = "user1"
+
 const c10RoomId = "424242"
 
 type c10Step struct {
-	St    int    `json:"st"`
-	K     string `json:"k"` // doc, bad, bin, over, opaque; resume: no frame of the sender - the session without connection resumes (St 7)
+	St    int    `json:"st"` // 0-5 see c10Fix.ensure; 7 resume step; 8 client in the room without the permission to send control messages
+	K     string `json:"k"`  // doc, bad, bin, over, opaque; resume: no frame of the sender - the session without connection resumes (St 7)
 	Doc   *vj    `json:"doc,omitempty"`
 	Raw   string `json:"raw,omitempty"` // base64 of the frame (bad, bin, over, opaque); placeholders are substituted after decoding
 	Class string `json:"class,omitempty"`
 	// observations
-	Done    bool     `json:"done,omitempty"`
-	Alive   bool     `json:"alive,omitempty"`
-	Replies []string `json:"replies,omitempty"`
-	Closed  bool     `json:"closed,omitempty"`
-	By      []string `json:"by,omitempty"`
-	ByOk    bool     `json:"byok,omitempty"`
-	DSame   bool     `json:"dsame,omitempty"`
-	Api     int      `json:"api,omitempty"`
-	Off     int      `json:"off,omitempty"` // messages added to the queue of the session without connection
-	Orc     []string `json:"orc,omitempty"`
-	Panic   string   `json:"panic,omitempty"`
+	Done     bool     `json:"done,omitempty"`
+	Alive    bool     `json:"alive,omitempty"`
+	Replies  []string `json:"replies,omitempty"`
+	Closed   bool     `json:"closed,omitempty"`
+	By       []string `json:"by,omitempty"`
+	ByOk     bool     `json:"byok,omitempty"`
+	DSame    bool     `json:"dsame,omitempty"`
+	Api      int      `json:"api,omitempty"`
+	Off      int      `json:"off,omitempty"`  // messages added to the queue of the session without connection
+	Live     bool     `json:"live,omitempty"` // after the frame the hub still serves: a bystander's request and a new connection within the bound
+	LiveNote string   `json:"livenote,omitempty"`
+	DDiff    string   `json:"ddiff,omitempty"` // where the digests before and after part (diagnosis)
+	Orc      []string `json:"orc,omitempty"`
+	Panic    string   `json:"panic,omitempty"`
 }
 
 type c10Case struct {
@@ -224,11 +230,11 @@ func (s *c10Step) coqInput() string {
 
 func (s *c10Step) coq() string {
 	if s.K == "opaque" || s.K == "resume" {
-		return fmt.Sprintf("mkopaque %d (mkobs %s %s %s %s %s %s %s %s)", s.St, coqBool(s.Alive), coqList(s.Replies),
-			coqBool(s.Closed), coqList(s.By), coqBool(s.ByOk), coqBool(s.DSame), coqZ(int64(s.Api)), coqZ(int64(s.Off)))
+		return fmt.Sprintf("mkopaque %d (mkobs %s %s %s %s %s %s %s %s %s)", s.St, coqBool(s.Alive), coqList(s.Replies),
+			coqBool(s.Closed), coqList(s.By), coqBool(s.ByOk), coqBool(s.DSame), coqZ(int64(s.Api)), coqZ(int64(s.Off)), coqBool(s.Live))
 	}
-	return fmt.Sprintf("mkstep %d %s (mkobs %s %s %s %s %s %s %s %s)", s.St, s.coqInput(), coqBool(s.Alive), coqList(s.Replies),
-		coqBool(s.Closed), coqList(s.By), coqBool(s.ByOk), coqBool(s.DSame), coqZ(int64(s.Api)), coqZ(int64(s.Off)))
+	return fmt.Sprintf("mkstep %d %s (mkobs %s %s %s %s %s %s %s %s %s)", s.St, s.coqInput(), coqBool(s.Alive), coqList(s.Replies),
+		coqBool(s.Closed), coqList(s.By), coqBool(s.ByOk), coqBool(s.DSame), coqZ(int64(s.Api)), coqZ(int64(s.Off)), coqBool(s.Live))
 }
 
 func (c *c10Case) coq(fixDialout, fixLabel bool) string {
@@ -648,6 +654,50 @@ func (g *c10Gen) enumerate(maxDepth int) {
 			}
 		}
 	}
+	// Frames that address the sender itself: its own session id, its own user id, its room / call,
+	// in both kinds that have a recipient, from senders with and without the right to send control
+	// messages (state 8: in the room, permissions without "control").  The server drops them
+	// ("Don't loop messages to the sender") - on an early exit of the handler, next to the look-up
+	// of the recipient in the hub's tables.
+	selfRcpts := []struct {
+		n string
+		v *vj
+	}{{"session", c10Recipient("session", kv("sessionid", js(c10Sid)))},
+		{"session-userid-too", c10Recipient("session", kv("sessionid", js(c10Sid)), kv("userid", js(c10SelfUser)))},
+		{"user", c10Recipient("user", kv("userid", js(c10SelfUser)))},
+		{"user-sessionid-too", c10Recipient("user", kv("userid", js(c10SelfUser)), kv("sessionid", js(c10Sid)))},
+		{"room", c10Recipient("room")},
+		{"room-sessionid-too", c10Recipient("room", kv("sessionid", js(c10Sid)), kv("userid", js(c10SelfUser)))},
+		{"call", c10Recipient("call")},
+		{"session-not-quite", c10Recipient("session", kv("sessionid", js(c10Sid+" ")))}}
+	selfData := []c11Shape{{"plain", jo(kv("tag", ji(7)))}, {"null", jz()}, {"str", js("x")},
+		{"chat-refresh", data(kv("type", js("chat")), kv("chat", jo(kv("refresh", jb(true)))))},
+		{"offer", data(kv("type", js("offer")), kv("roomType", js("video")), kv("payload", jo(kv("type", js("offer")), kv("sdp", js(c10SdpText())))))},
+		{"unshare", data(kv("type", js("unshareScreen")), kv("roomType", js("screen")))},
+		{"sendoffer", data(kv("type", js("sendoffer")), kv("roomType", js("video")))}}
+	for _, kind := range []string{"control", "message"} {
+		for ri, rc := range selfRcpts {
+			for di, s := range selfData {
+				// the plain payload: every recipient in every state with a session; the other payloads:
+				// the recipients that name the sender (and the call) in the room, as client and as internal client
+				home := []int{2, 8, 3, 1, 4, 5}
+				if di > 0 {
+					if ri >= 4 && rc.n != "call" || rc.n == "session-userid-too" {
+						continue
+					}
+					home = []int{2, 3}
+					if kind == "message" {
+						home = []int{2}
+					}
+				}
+				if kind == "message" && di >= 4 && (rc.n == "session" || rc.n == "call") {
+					continue // the media payloads x these recipients are in the class mcu/
+				}
+				g.items = append(g.items, c10Item{"self/" + kind + "/" + rc.n + "/" + s.name, c10Msg("o1", kind, kv(kind, jo(kv("recipient", rc.v), kv("data", s.v)))), home})
+				g.hist["self_addressed"] += len(home)
+			}
+		}
+	}
 	// contents of hello.auth.params for the types that decode them
 	params := []c11Shape{{"num", ji(5)}, {"str", js("abc")}, {"arr", ja()}, {"empty", jo()}, {"token-empty", jo(kv("token", js("")))}, {"token-num", jo(kv("token", ji(1)))},
 		{"token-null", jo(kv("token", jz()))}, {"token-dup", jo(kv("token", js("")), kv("token", js("x.y.z")))}, {"unknown-members", jo(kv("token", js("x.y.z")), kv("zz", ja(jo())))}}
@@ -891,7 +941,7 @@ func c10RandomValue(r *vrng, depth int) *vj {
 	case n == 3:
 		return jf(int64(r.intn(40))-5, int64(r.intn(5))-2)
 	case n <= 5:
-		return js(pick(r, []string{"", "x", c10Sid, c10Bid, c10Pid, c10Room, "room", "session", "dialout", "status", "error", "1.0", "2.0", "internal", "set", "offer", c10Burl, c10Oid, "chat", c10OffUser}))
+		return js(pick(r, []string{"", "x", c10Sid, c10Bid, c10Pid, c10Room, "room", "session", "dialout", "status", "error", "1.0", "2.0", "internal", "set", "offer", c10Burl, c10Oid, "chat", c10OffUser, c10SelfUser}))
 	case n == 6 && depth > 0:
 		var l []*vj
 		for i := r.intn(3); i > 0; i-- {
@@ -947,6 +997,9 @@ func c10RandomItem(r *vrng) (c10Item, int) {
 	st := pick(r, b.states)
 	if r.chance(25) {
 		st = r.intn(6)
+	}
+	if st == 2 && r.chance(12) {
+		st = 8
 	}
 	if st == 4 && r.chance(50) && doc.K == "o" {
 		doc = doc.with("id", js(c10Pid))
